@@ -44,7 +44,7 @@ fn u(s: &str) -> u64 {
     s.parse().unwrap_or_else(|_| panic!("bad number {s:?}"))
 }
 fn cookie_str(k: u64) -> String {
-    format!("cookie{k}")
+    c17_cookie(k)
 }
 
 // ---------- probes ----------
@@ -191,12 +191,17 @@ impl Peer {
 
 struct Digests {
     known: HashMap<Vec<u8>, u64>,
+    /// cookie index of the node under test (the only cookie its sessions hash with)
+    own: u64,
+    /// the digest the session last put on the wire (what a cookie-less peer can replay)
+    last_sent: Option<Vec<u8>>,
 }
 impl Digests {
+    fn new(own: u64) -> Self {
+        Self { known: HashMap::new(), own, last_sent: None }
+    }
     fn learn(&mut self, ch: u32) {
-        for k in 0..3 {
-            self.known.insert(challenge_digest(&cookie_str(k), ch), 1 + ch as u64 + k * K);
-        }
+        self.known.insert(challenge_digest(&cookie_str(self.own), ch), 1 + ch as u64 + self.own * K);
     }
     fn sym(&self, d: &[u8]) -> u64 {
         self.known.get(d).copied().unwrap_or(UNKNOWN)
@@ -204,6 +209,14 @@ impl Digests {
     fn resolve(&mut self, spec: &str, issued: u32) -> (Vec<u8>, u64) {
         let p: Vec<&str> = spec.split(':').collect();
         match p[0] {
+            // echo: replay the digest field of the last ClientChallenge / ServerAck frame the session wrote
+            "E" => match self.last_sent.clone() {
+                Some(b) => {
+                    let c = self.sym(&b);
+                    (b, c)
+                }
+                None => (vec![0u8; 32], RAW + 1),
+            },
             "raw" => {
                 let j = u(p[1]);
                 (match j { 0 => vec![], 1 => vec![0u8; 32], _ => vec![0xffu8; 32] }, RAW + j)
@@ -533,7 +546,7 @@ fn pong_ts(s: u64) -> pc::Pong {
 }
 
 /// honest complete handshake of a peer named `n` against a server-side session
-async fn honest_server_handshake(peer: &mut Peer, names: &Names, n: u64) {
+async fn honest_server_handshake(peer: &mut Peer, names: &Names, n: u64, own: u64) {
     use pa::authentication_message::Msg as A;
     peer.send(&auth_frame(A::Name(pa::NameMessage {
         name: names.name(n),
@@ -553,7 +566,7 @@ async fn honest_server_handshake(peer: &mut Peer, names: &Names, n: u64) {
     }
     peer.send(&auth_frame(A::ClientChallenge(pa::ChallengeReply {
         challenge: 1,
-        digest: challenge_digest(&cookie_str(0), ch),
+        digest: challenge_digest(&cookie_str(own), ch),
     })))
     .await;
     barrier().await;
@@ -614,12 +627,13 @@ async fn run_unit(case: u64, rest: &str) -> String {
     d.stop(None);
     let _ = dh.await;
     ractor::pg::join_scoped(grp(case, 900), grp(case, 901), vec![r.get_cell()]);
+    let own = 0u64;
     let (ns, _) = Actor::spawn(None, ServerStub, ()).await.unwrap();
     let (me, _) = Actor::spawn(None, SessionStub, ()).await.unwrap();
     let mut ctx = Ctx {
         case,
         names: Names { self_cs: "h:1".into() },
-        dg: Digests { known: HashMap::new() },
+        dg: Digests::new(own),
         issued: 0,
         targets: HashMap::new(),
     };
@@ -673,6 +687,10 @@ async fn run_unit(case: u64, rest: &str) -> String {
                         ctx.issued = c.challenge;
                         rnd = c.challenge;
                         ctx.dg.learn(c.challenge);
+                        ctx.dg.last_sent = Some(c.digest.clone());
+                    }
+                    Some(pa::authentication_message::Msg::ServerAck(c)) => {
+                        ctx.dg.last_sent = Some(c.digest.clone());
                     }
                     _ => {}
                 }
@@ -759,7 +777,12 @@ fn kind_s_code(k: &str) -> u64 {
 
 async fn run_live(case: u64, rest: &str) -> String {
     let mut it = rest.splitn(3, ' ');
-    let is_server = it.next().unwrap() == "server";
+    let role = it.next().unwrap();
+    let (role, own) = match role.split_once('@') {
+        Some((r, k)) => (r, u(k)),
+        None => (role, 0),
+    };
+    let is_server = role == "server";
     let pre = it.next().unwrap() == "1";
     let ops = it.next().unwrap_or("");
 
@@ -771,7 +794,7 @@ async fn run_live(case: u64, rest: &str) -> String {
 
     let (ns, _) = Actor::spawn(
         None,
-        NodeServer::new(0, cookie_str(0), format!("s{SELF_NAME}"), "h".into(), None, None),
+        NodeServer::new(0, cookie_str(own), format!("s{SELF_NAME}"), "h".into(), None, None),
         (),
     )
     .await
@@ -815,7 +838,7 @@ async fn run_live(case: u64, rest: &str) -> String {
         ns.cast(NodeServerMessage::ConnectionOpenedExternal { stream: Box::new(Duplex(a)), is_server: true }).unwrap();
         barrier().await;
         let mut pp = Peer::new(b);
-        honest_server_handshake(&mut pp, &Names { self_cs: self_cs.clone() }, 1).await;
+        honest_server_handshake(&mut pp, &Names { self_cs: self_cs.clone() }, 1, own).await;
         pre_peer = Some(pp);
     }
     let n_pre = sessions.0.lock().unwrap().len();
@@ -830,7 +853,7 @@ async fn run_live(case: u64, rest: &str) -> String {
     let mut ctx = Ctx {
         case,
         names: Names { self_cs },
-        dg: Digests { known: HashMap::new() },
+        dg: Digests::new(own),
         issued: 0,
         targets: HashMap::new(),
     };
@@ -894,6 +917,10 @@ async fn run_live(case: u64, rest: &str) -> String {
                         ctx.issued = c.challenge;
                         rnd = c.challenge;
                         ctx.dg.learn(c.challenge);
+                        ctx.dg.last_sent = Some(c.digest.clone());
+                    }
+                    Some(pa::authentication_message::Msg::ServerAck(c)) => {
+                        ctx.dg.last_sent = Some(c.digest.clone());
                     }
                     _ => {}
                 }
